@@ -7,13 +7,87 @@ use serde_json::json;
 
 pub struct C07;
 
+/// Histories of generated texts (Annex A programs, preprocessor programs, token soups, their mutants) through the
+/// string entry points; the probe's reference is computed on a fresh thread for this very text.
+fn generated_case(ctx: &Ctx, t: &mut Tape, st: &mut Stats) -> Result<(), Fail> {
+    use crate::gen::layout::{Feats, TriviaCfg};
+    use crate::gen::{mutate, svgen};
+    use crate::ppm::gen::{self as ppgen, PpCfg};
+    let pool = calls::pool(&ctx.scratch);
+    let mut gen_text = |t: &mut Tape| -> String {
+        match t.below(5) {
+            0 => mutate::soup(t),
+            1 => {
+                let case = ppgen::generate(t, &PpCfg { includes: false, max_items: 5, ..PpCfg::full() }, "/nonexistent");
+                case.rendered[0].text.clone()
+            }
+            k => {
+                let p = svgen::generate(t, &svgen::Cfg { max_elements: 2, max_items: 4, adversarial_names: true });
+                let mut f = Feats::default();
+                let text = p.render(t, &TriviaCfg::full(), &mut f);
+                if k == 4 {
+                    mutate::mutate_text(&text, t)
+                } else {
+                    text
+                }
+            }
+        }
+    };
+    let n = 1 + t.below(4);
+    let mut hist: Vec<(Entry, String)> = Vec::new();
+    for _ in 0..n {
+        let e = *t.pick(calls::STRING_ENTRIES);
+        let tx = gen_text(t);
+        hist.push((e, tx));
+    }
+    let pe = *t.pick(calls::STRING_ENTRIES);
+    let ptext = gen_text(t);
+    let run = |with_history: bool| -> String {
+        let hist = &hist;
+        let ptext = &ptext;
+        std::thread::scope(|sc| {
+            std::thread::Builder::new()
+                .stack_size(512 << 20)
+                .spawn_scoped(sc, move || {
+                    let mut buf = String::with_capacity(1 << 16);
+                    if with_history {
+                        for (e, tx) in hist {
+                            let _ = calls::exec_text(pool, *e, 0, tx, &mut buf);
+                        }
+                    } else {
+                        // same buffer address discipline: fill the buffer once so its allocation exists
+                        buf.push_str("x");
+                    }
+                    calls::exec_text(pool, pe, 0, ptext, &mut buf)
+                })
+                .unwrap()
+                .join()
+                .unwrap_or_else(|_| "PANIC".to_string())
+        })
+    };
+    let got = run(true);
+    let want = run(false);
+    if got != want {
+        return Err(Fail::new(
+            format!("{:?} on a generated text after {} generated calls differs from the same call on a fresh thread: {}", pe, hist.len(), calls::first_diff(&got, &want)),
+            json!({"history": hist.iter().map(|(e, tx)| json!({"entry": format!("{:?}", e), "text": tx})).collect::<Vec<_>>(), "probe_entry": format!("{:?}", pe), "probe_text": ptext}),
+        ));
+    }
+    st.class("generated history");
+    if hist.len() >= 2 {
+        let key = format!("{:?}{:?}{}", hist, pe, ptext);
+        st.nontrivial(digest(key.as_bytes()), || json!({"campaign": "generated", "calls": hist.len(), "probe": format!("{:?}", pe), "probe_text": crate::sv::clip(&ptext, 200)}));
+    }
+    Ok(())
+}
+
 impl Prop for C07 {
     fn id(&self) -> &'static str {
         "C07"
     }
     fn rule(&self) -> String {
         format!(
-            "cases: histories of 0-12 calls followed by a probe call on one thread (campaign histories: a new thread per case, so cases replay exactly; campaign accumulate: the shard's long-lived thread, so residue also adds up across cases; campaign pairs: every (first input, probe input) pair); a call = one of \
+            "cases: histories of 0-12 calls followed by a probe call on one thread (campaign histories: a new thread per case, so cases replay exactly; campaign accumulate: the shard's long-lived thread, so residue also adds up across cases; campaign pairs: every (first input, probe input) pair; campaign generated: 1-4 generated texts (Annex A programs, preprocessor programs, soups, mutants) then a generated probe text through the string entry points); a call = one of \
              {} entry points (preprocess_str with/without strip_comments, preprocess, parse_sv_str / parse_lib_str strict and incomplete, parse_sv strict and incomplete, preprocess_str + parse_sv_pp, \
              raw pp_parser / sv_parser / lib_parser and their incomplete variants) x one of {} pooled inputs (accepted, rejected, keyword-sensitive probes, and state-polluting inputs: unclosed \
              `begin_keywords, lone `end_keywords, `resetall, failing macro names, recursion-limit programs, errors half-way through a file, truncated directives). Every input is copied into ONE reused \
@@ -30,6 +104,7 @@ impl Prop for C07 {
         vec![
             Campaign { name: "histories", kind: Kind::Random { quick: 6000, thorough: 80000 }, tape_len: 40 },
             Campaign { name: "accumulate", kind: Kind::Random { quick: 6000, thorough: 80000 }, tape_len: 40 },
+            Campaign { name: "generated", kind: Kind::Random { quick: 3000, thorough: 40000 }, tape_len: 700 },
             Campaign { name: "pairs", kind: Kind::Enumerated { count: INPUTS.len() * INPUTS.len() }, tape_len: 1 },
         ]
     }
@@ -38,6 +113,9 @@ impl Prop for C07 {
         let pool = calls::pool(&ctx.scratch);
         thread_local! {
             static BUF: std::cell::RefCell<String> = std::cell::RefCell::new(String::with_capacity(1 << 16));
+        }
+        if campaign == "generated" {
+            return generated_case(ctx, t, st);
         }
         let mut history: Vec<(Entry, usize)> = Vec::new();
         let probe: (Entry, usize);
